@@ -7,6 +7,7 @@
 #include <algorithm>
 #include <boost/iterator/counting_iterator.hpp>
 #include <forward_list>
+#include <functional>
 #include <list>
 #include <set>
 #include <vector>
@@ -18,6 +19,7 @@ static int* prev_cnt;        // tracked: counters of the previous region (interf
 static int started, finished;
 static int tid2sim[MAXT];    // pool tid -> simulated thread, learnt on first use
 static int stolen_probe;
+static int stop_dedicated;
 
 static void elem(int i, int n) {
   if (i < 0 || i >= n) vsim_fail("c03.range", "function applied to element %d outside the range [0,%d)", i, n);
@@ -66,6 +68,12 @@ int main() {
   galois::SharedMemSys G;
   auto& tp = gsb::getThreadPool();
   int hw = (int)tp.getMaxThreads();
+  // 15 % of the runs take one pool thread away first (ThreadPool::runDedicated): requests for "all threads" must then be
+  // clamped to what is left, and every region must run on exactly the reported number of threads
+  std::function<void(void)> dedicated_fn = [&]() { while (!obs_load(&stop_dedicated)) gsb::asmPause(); };
+  bool dedicated = hw >= 3 && wl_chance(15);
+  if (dedicated) { tp.runDedicated(dedicated_fn); vsim_probe("dedicated_thread"); }
+  int usable = (int)tp.getMaxUsableThreads();
   cnt = (int*)vsim_tracked_alloc(sizeof(int) * MAXE);
   prev_cnt = (int*)vsim_tracked_alloc(sizeof(int) * MAXE);
   for (int t = 0; t < MAXT; t++) tid2sim[t] = -1;
@@ -73,8 +81,10 @@ int main() {
   int prev_n = 0;
   for (int r = 0; r < regions; r++) {
     int k = (int)wl_range(1, hw);
+    int asked = k;
     galois::setActiveThreads(k);
     k = (int)galois::getActiveThreads();
+    if (k > usable || k < 1 || (asked <= usable && k != asked)) vsim_fail("c03.active-threads", "setActiveThreads(%d) made %d threads active; %d of %d pool threads are usable%s", asked, k, usable, hw, dedicated ? " (one is dedicated)" : "");
     int kind = (int)wl_range(0, 9);
     int sizes[] = {0, 1, k > 1 ? k - 1 : 1, 7, 31, 97, 257, (int)wl_range(2, 400), tier() ? (int)wl_range(1000, 4100) : (int)wl_range(300, 1100)};
     int n = sizes[wl_range(0, 8)];
@@ -154,6 +164,7 @@ int main() {
     prev_n = n;
   }
   tp.beKind();
+  obs_store(&stop_dedicated, 1);
   vsim_note("plan", "%s", plan.c_str());
   return 0;
 }
